@@ -61,7 +61,7 @@ def fix_pickle(res):
 
 def run(tier="quick", seed=0, use_cache=True):
     res = engine.Result("C06")
-    res.rules = ["STATE-SHAPE", "TYPE-NAMES", "DTYPE-TABLE", "EMBEDDED-LEAF", "PY-NATIVE-CALL", "SAME-VALUE", "SEP-REFRESH"]
+    res.rules = ["STATE-SHAPE", "TYPE-NAMES", "DTYPE-TABLE", "EMBEDDED-LEAF", "PY-NATIVE-CALL", "SAME-VALUE", "SEP-REFRESH", "PY-CLASS-IDENTITY"]
     res.explanation = (
         "The shape of a node's serialized state is fixed by a handful of code "
         "facts: Py_BuildValue / PyArg_ParseTuple formats, tuple sizes, the "
@@ -95,6 +95,8 @@ def run(tier="quick", seed=0, use_cache=True):
     from ..rules import samevalue, sepguard
     samevalue.py_check(res)
     sepguard.py_check(res)
+    from ..rules import pyclassid
+    pyclassid.py_check(res)
     # the Python embedded-leaf guard (shared with C04)
     tmp = engine.Result("C06")
     pychanged.check(tmp)
